@@ -77,16 +77,19 @@ class Judge:
     def __init__(self, ctx, table, label):
         self.ctx = ctx; self.table = table; self.label = label
         self.seen = set(); self.n = 0; self.classes = set()
-    def admissible(self, bk, kind, s, b, f, cls):
-        return self.table.get("|".join([bk, kind, str(s), str(b), f, cls]))
-    def check(self, api, bk, kind, s, b, f, cls, ret, same, where, data_hex=None, extra_ok=()):
+    def admissible(self, bk, kind, s, b, f, cls, fk="c1i0"):
+        return self.table.get("|".join([fk, bk, kind, str(s), str(b), f, cls]))
+    def check(self, api, bk, kind, s, b, f, cls, ret, same, where, data_hex=None, extra_ok=(), fk="c1i0"):
         self.n += 1
-        adm = self.admissible(bk, kind, s, b, f, cls)
-        self.last_adm = adm
+        adm = self.admissible(bk, kind, s, b, f, cls, fk)
+        if fk == "c1i0":
+            self.last_adm = adm
+        else:
+            self.adm_single = adm if fk == "c0i0" else getattr(self, "adm_single", None)
         if adm is None:
             raise MachineryError("the model has no entry for %s" % "|".join([bk, kind, str(s), str(b), f, cls]))
         self.classes.add((bk, kind, f, cls))
-        if api == "buffer":
+        if api.startswith("buffer"):
             adm = [[{"STREAM_END": "OK", "BUF_ERROR": "DATA_ERROR"}.get(r, r), sm] for r, sm in adm]
         ok = any(ret == r and (r not in ("STREAM_END", "OK") or same == sm) for r, sm in adm) or ret in extra_ok
         if not ok:
@@ -134,6 +137,14 @@ def xz_faults(ctx, D, lz, bases, table, cat, start=0, cli=None, heavy=False):
             return r1
         def run_code(buf):
             return D.decode_stream(bytes(buf), lz.CONCATENATED, out_cap=cap)
+        first_stream = b"".join(meaning[:len(af['streams'][0]['blocks'])])
+        def lattice(kind, s, b, f, cls, buf, where):
+            """the same mutant under the other flag sets (no LZMA_CONCATENATED: only the first Stream is asked for; LZMA_IGNORE_CHECK)"""
+            for cc, ig in ((0, 0), (1, 1), (0, 1)):
+                fk = "c%di%d" % (cc, ig)
+                fv = (lz.CONCATENATED if cc else 0) | (lz.IGNORE_CHECK if ig else 0)
+                r, o, _ = D.buffer_decode(bytes(buf), fv, out_cap=cap)
+                J.check("buffer/" + fk, bk, kind, s, b, f, cls, r, o == (orig if cc else first_stream), where + " (flags %s)" % fk, bytes(buf).hex() if len(buf) < 600 else None, fk=fk)
         def run_mt(buf, slices=None):
             return D.decode_stream(bytes(buf), lz.CONCATENATED, mt=2, slices=slices, out_cap=cap)
         def run_st(buf, slices=None):
@@ -222,6 +233,7 @@ def xz_faults(ctx, D, lz, bases, table, cat, start=0, cli=None, heavy=False):
                         raise MachineryError("no classifier for field " + f)
                     r, o, _ = run(buf)
                     J.check("buffer", bk, "flip", s, b, f, cls, r, o == orig, "byte %d bit %d" % (off + i, bit), bytes(buf).hex() if len(buf) < 600 else None)
+                    lattice("flip", s, b, f, cls, buf, "byte %d bit %d" % (off + i, bit))
                     if (i * 8 + bit) % 5 == 0 or f == "b.data":
                         r2, o2, _, _ = run_code(buf)
                         J.check("code", bk, "flip", s, b, f, cls, r2, o2 == orig, "byte %d bit %d" % (off + i, bit), bytes(buf).hex() if len(buf) < 600 else None,
@@ -234,6 +246,7 @@ def xz_faults(ctx, D, lz, bases, table, cat, start=0, cli=None, heavy=False):
                         sliced("flip", "flip", s, b, f, cls, buf, [off + i, off + i + 1], "byte %d bit %d" % (off + i, bit))
                     if cli is not None and (i * 8 + bit) % cli['every'] == cli['phase']:
                         cli['jobs'].append((bytes(buf), orig, "xz:flip:%s:%s" % (f, cls), J.last_adm))
+                        cli['jobs'].append((bytes(buf), first_stream, "xz-single:flip:%s:%s" % (f, cls), J.adm_single))
             # ---------------- overwrites with the CRC32 recomputed
             grp = crc_group(rngs, s, b, f)
             def over(cls, edit, where):
@@ -244,6 +257,7 @@ def xz_faults(ctx, D, lz, bases, table, cat, start=0, cli=None, heavy=False):
                 fix_crc(buf, g2 if isinstance(g2, tuple) else grp)
                 r, o, _ = run(buf)
                 J.check("buffer", bk, "over", s, b, f, cls, r, o == orig, where, bytes(buf).hex() if len(buf) < 600 else None)
+                lattice("over", s, b, f, cls, buf, where)
                 r2, o2, _, _ = run_code(buf)
                 J.check("code", bk, "over", s, b, f, cls, r2, o2 == orig, where, bytes(buf).hex() if len(buf) < 600 else None)
                 r3, o3, _, _ = D.decode_stream(bytes(buf), lz.CONCATENATED, mt=2, out_cap=cap)
@@ -353,6 +367,7 @@ def xz_faults(ctx, D, lz, bases, table, cat, start=0, cli=None, heavy=False):
                             cls = "shift"
                         r, o, _ = run(buf)
                         J.check("buffer", bk, kind, s, b, f, cls, r, o == orig, "%s at %d %s" % (kind, off + i, tag), bytes(buf).hex() if len(buf) < 600 else None)
+                        lattice(kind, s, b, f, cls, buf, "%s at %d %s" % (kind, off + i, tag))
                         if i % 3 == 0:
                             r2, o2, _, _ = run_code(buf)
                             J.check("code", bk, kind, s, b, f, cls, r2, o2 == orig, "%s at %d %s" % (kind, off + i, tag), None, extra_ok=("OUT_FULL",))
@@ -374,6 +389,7 @@ def xz_faults(ctx, D, lz, bases, table, cat, start=0, cli=None, heavy=False):
                 J.check("code", bk, "trunc", s, b, f, adm_w, r2, o2 == orig, "cut at %d" % (off + i))
                 r, o, _ = run(cut)
                 J.check("buffer", bk, "trunc", s, b, f, adm_w, r, o == orig, "cut at %d" % (off + i))
+                lattice("trunc", s, b, f, adm_w, cut, "cut at %d" % (off + i))
                 if f == "s.padding":
                     sliced("trunc", "trunc", s, b, f, adm_w, cut, range(off - 1, off + i), "cut at %d" % (off + i))
                 if not orig.startswith(o2):
@@ -406,12 +422,16 @@ def xz_faults(ctx, D, lz, bases, table, cat, start=0, cli=None, heavy=False):
     return J.n, sorted("|".join(x) for x in J.classes)
 
 # ------------------------------------------------------------------------------------------ .lz / .lzma
-def lz_key(fmt, base, kind, m, f, cls):
+def flags_key(fl):
+    return "c%di%d" % (1 if fl['concat'] else 0, 1 if fl['ignoreCheck'] else 0)
+
+def lz_key(fmt, base, kind, m, f, cls, fl=None):
+    fk = flags_key(fl) if fl else "c1i0"
     if fmt == "lz":
         bk = "lz:" + ",".join(str(x['ver']) for x in base)
     else:
         bk = "lzma:%s:%s" % (base['usize'], "eopm" if base['eopm'] else "noeopm")
-    return "|".join([bk, kind, str(m), "0", f, cls])
+    return "|".join([fk, bk, kind, str(m), "0", f, cls])
 
 def lzma_lz_faults(ctx, D, lz, bases, table, start=0, cli=None):
     from harness.glue import lzip as glzip, alone as galone, lzma as glz
@@ -446,8 +466,14 @@ def lzma_lz_faults(ctx, D, lz, bases, table, start=0, cli=None):
             data = b"".join(members)
             orig = b"".join(texts)
             bk = "lz:" + ",".join(str(x['ver']) for x in base)
-            apis = [("lzip", lambda d, cap: dec("lzma_lzip_decoder", d, cap, MEMLIMIT, lz.CONCATENATED)),
-                    ("auto", lambda d, cap: dec("lzma_auto_decoder", d, cap, MEMLIMIT, lz.CONCATENATED))]
+            # the flag lattice: LZMA_CONCATENATED x LZMA_IGNORE_CHECK, through both entry points
+            apis = []
+            for cc in (1, 0):
+                for ig in (0, 1):
+                    fv = (lz.CONCATENATED if cc else 0) | (lz.IGNORE_CHECK if ig else 0)
+                    fk = "c%di%d" % (cc, ig)
+                    apis.append(("lzip/" + fk, lambda d, cap, fv=fv: dec("lzma_lzip_decoder", d, cap, MEMLIMIT, fv), fk))
+                    apis.append(("auto/" + fk, lambda d, cap, fv=fv: dec("lzma_auto_decoder", d, cap, MEMLIMIT, fv), fk))
         else:
             text = bytes(rng.choice(b"abcdefgh \n") for _ in range(rng.randrange(30, 70)))
             syms = glz.greedy_parse(text, dict_size=1 << 16)
@@ -455,20 +481,23 @@ def lzma_lz_faults(ctx, D, lz, bases, table, start=0, cli=None):
             orig = text
             ranges = [(1, "a.props", 0, 1), (1, "a.dict", 1, 4), (1, "a.usize", 5, 8), (1, "a.payload", 13, len(data) - 13)]
             bk = "lzma:%s:%s" % (base['usize'], "eopm" if base['eopm'] else "noeopm")
-            apis = [("alone", lambda d, cap: dec("lzma_alone_decoder", d, cap, MEMLIMIT)),
-                    ("auto", lambda d, cap: dec("lzma_auto_decoder", d, cap, MEMLIMIT, lz.CONCATENATED))]
+            apis = [("alone", lambda d, cap: dec("lzma_alone_decoder", d, cap, MEMLIMIT), "c1i0"),
+                    ("auto", lambda d, cap: dec("lzma_auto_decoder", d, cap, MEMLIMIT, lz.CONCATENATED), "c1i0")]
         cap = len(orig) + 4096
-        def judge(api, kind, m, f, cls, ret, out, where, buf):
+        def expected(fk):
+            """what a decoder with these flags is asked to deliver: every member, or (no LZMA_CONCATENATED) only the first"""
+            return texts[0] if (fmt == "lz" and fk.startswith("c0")) else orig
+        def judge(api, kind, m, f, cls, ret, out, where, buf, fk="c1i0"):
             J.n += 1
-            adm = table.get("|".join([bk, kind, str(m), "0", f, cls]))
+            adm = table.get("|".join([fk, bk, kind, str(m), "0", f, cls]))
             J.last_adm = adm
             if adm is None:
-                raise MachineryError("the model has no entry for %s" % "|".join([bk, kind, str(m), "0", f, cls]))
+                raise MachineryError("the model has no entry for %s" % "|".join([fk, bk, kind, str(m), "0", f, cls]))
             J.classes.add((bk, kind, f, cls))
-            same = out == orig
+            same = out == expected(fk)
             ok = any(ret == r and (r != "STREAM_END" or same == sm) for r, sm in adm)
             # a member-wise prefix is what LooseTrailing admits: same=false rows of the model with STREAM_END
-            if ok and ret == "STREAM_END" and not same and fmt == "lz":
+            if ok and ret == "STREAM_END" and not same and fmt == "lz" and fk.endswith("i0"):
                 pref = [b"".join(texts[:k]) for k in range(1, len(texts))]
                 if out not in pref:
                     ok = False
@@ -477,12 +506,12 @@ def lzma_lz_faults(ctx, D, lz, bases, table, start=0, cli=None):
                 key = "%s:%s:%s:%s:%s->%s%s" % (fmt, api, kind, f, cls, ret, "" if not succ else (":same" if same else ":DIFFERENT-DATA"))
                 if key not in J.seen:
                     J.seen.add(key)
-                    ctx.violation(key, "%s on %s, %s of %s (%s) %s: %s%s; the model admits %s" % (api, bk, kind, f, cls, where, ret,
+                    ctx.violation(key, "%s (flags %s) on %s, %s of %s (%s) %s: %s%s; the model admits %s" % (api, fk, bk, kind, f, cls, where, ret,
                                   (" with the original data" if same else " with OTHER data (%r)" % out[:40]) if succ else "", adm),
                                   dict(kind="c05", base=bk, where=where, bytes=bytes(buf).hex()))
-        for name, fn in apis:
+        for name, fn, fk in apis:
             r, o = fn(data, cap)
-            judge(name, "none", 0, "", "", r, o, "undamaged", data)
+            judge(name, "none", 0, "", "", r, o, "undamaged", data, fk)
         for (m, f, off, ln) in ranges:
             for i in range(ln):
                 for bit in range(8):
@@ -509,29 +538,35 @@ def lzma_lz_faults(ctx, D, lz, bases, table, start=0, cli=None):
                         elif f in ("a.dict", "a.usize"): cls = "any"
                         else:
                             cls = "same" if galone.parse(bytes(buf)).verdict == 'ok' and galone.parse(bytes(buf)).out == orig else "garbage"
-                    for name, fn in apis:
+                    adm_by = {}
+                    for name, fn, fk in apis:
                         r, o = fn(bytes(buf), cap)
-                        judge(name, "flip", m, f, cls, r, o, "byte %d bit %d" % (off + i, bit), buf)
+                        judge(name, "flip", m, f, cls, r, o, "byte %d bit %d" % (off + i, bit), buf, fk)
+                        adm_by[fk] = J.last_adm
                     if cli is not None and (i * 8 + bit) % cli['every'] == cli['phase']:
-                        cli['jobs'].append((bytes(buf), orig, "%s:flip:%s:%s" % (fmt, f, cls), J.last_adm))
+                        cli['jobs'].append((bytes(buf), orig, "%s:flip:%s:%s" % (fmt, f, cls), adm_by["c1i0"]))
+                        if "c0i0" in adm_by:
+                            cli['jobs'].append((bytes(buf), expected("c0i0"), "%s-single:flip:%s:%s" % (fmt, f, cls), adm_by["c0i0"]))
             for i in range(ln):
                 w = "before" if i == 0 else "inside"
                 cut = data[:off + i]
-                for name, fn in apis:
+                adm_by = {}
+                for name, fn, fk in apis:
                     r, o = fn(cut, cap)
-                    judge(name, "trunc", m, f, w, r, o, "cut at %d" % (off + i), cut)
+                    judge(name, "trunc", m, f, w, r, o, "cut at %d" % (off + i), cut, fk)
+                    adm_by[fk] = J.last_adm
                     if not orig.startswith(o):
                         ctx.violation("%s:trunc:output-not-prefix:%s" % (fmt, f), "cut at %d: output is not a prefix of the data" % (off + i), dict(kind="c05", base=bk))
                 if cli is not None and i % cli['every'] == cli['phase']:
-                    cli['jobs'].append((bytes(cut), orig, "%s:trunc:%s" % (fmt, f), J.last_adm))
+                    cli['jobs'].append((bytes(cut), orig, "%s:trunc:%s" % (fmt, f), adm_by["c1i0"]))
                 if fmt == "lz":
                     for kind in ("ins", "del"):
                         buf = bytearray(data)
                         if kind == "ins": buf.insert(off + i, 0x5A)
                         else: del buf[off + i]
-                        for name, fn in apis:
+                        for name, fn, fk in apis:
                             r, o = fn(bytes(buf), cap)
-                            judge(name, kind, m, f, "shift", r, o, "%s at %d" % (kind, off + i), buf)
+                            judge(name, kind, m, f, "shift", r, o, "%s at %d" % (kind, off + i), buf, fk)
         ctx.case(key=("lzbase", bk))
     return J.n, sorted("|".join(x) for x in J.classes)
 
